@@ -160,7 +160,13 @@ def run_guards(ctx):
     # error variants
     homes = {id(e.home): e.home for e in g.edges if getattr(e, "virtual", False)}
     errdefs = [rd for rd in g.retdefs if rd.kind == "err"] + [rd for h in homes.values() for rd in ctx.guards(h).retdefs if rd.kind == "err"]
-    names = sorted(set(m for rd in errdefs for m in ("OutputTooSmall", "SizeTooLarge", "SizeInvalid") if m in fmt(rd.expr)))
+    names = set(m for rd in errdefs for m in ("OutputTooSmall", "SizeTooLarge", "SizeInvalid") if m in fmt(rd.expr))
+    # (an error built in an inlined helper reaches the return through the caller's `?`: take the constructions themselves as well)
+    for ff in [f] + list(homes.values()):
+        for bi, si, st in ff.body.iter_stmts():
+            if st.rv is not None and st.rv.kind == "agg" and st.rv.agg == "adt" and str(st.rv.path).endswith("NttError") and st.rv.vname:
+                names.add(st.rv.vname)
+    names = sorted(names)
     req(ctx, rule, K + "error-variants", names == ["OutputTooSmall", "SizeInvalid", "SizeTooLarge"], "errors: %s" % names, "unexpected error set %s" % names, loc=f.loc)
     # wrappers
     for nm, flag in (("ntt", 0), ("ntt_set_s", 1)):
